@@ -26,7 +26,7 @@ type propDef struct {
 
 var props = map[string]propDef{}
 
-var wazeroProps = map[string]bool{"C01": true, "C05": true, "C07": true, "C16": true}
+var wazeroProps = map[string]bool{"C01": true, "C05": true, "C07": true, "C16": true, "C03": true, "C11": true}
 
 func init() {
 	props["C01"] = propDef{gen: GenC01, chk: func() Checker { return &stratChecker{prop: "C01", fileInv: true} }}
